@@ -14,7 +14,7 @@ CHECKS = {
         'non-primary twins, both twins, the VOI, a foreign variable) and every declared dependency of at most one variable (legal and illegal): exactly the marked classes become external with a placeholder '
         'equation, variables that do not depend on them keep type and equation type, an under-constrained model whose only unknown is marked becomes valid, VOI/twin/foreign markings leave the analysis valid and '
         'are reported with a message, addDependency refuses itself and foreign variables; the generated C and Python obtain external values only through the callback, invoke it (last) after the declared '
-        'dependency holds its final value, and every other value equals the reference. Family sdep: an external variable whose declared dependency is a state or depends on one, on every graph with a state (n <= 3); '
+        'dependency holds its final value, and every other value equals the reference. Family sdep: an external variable whose declared dependency is a state or depends on one (also declared through a non-home member of its class), on every graph with a state (n <= 3, at most two read edges between variables, reads of the VOI not counted), also next to unrelated padding equations; '
         'every run is judged at a second evaluation point too (states moved, such an external answers differently, only computeVariables called): no value may stay stale.',
    note='Trusted: lib/depgraph.py reference values, lcx dump, gcc/CPython. Not covered: n > 3, more than two declared dependencies, a moved VOI at the second point (by design not recomputed).'),
  'C17': dict(level='exploration', ref='3/C17',
